@@ -22,4 +22,21 @@ JOBS = {
         assumptions=["FIFO among equal (time, priority) is judged by issue order; handles only need to be non-zero and distinct among pending events",
                      "pattern_find may return any matching event (order unspecified by the header)"],
     ),
+    "C02": dict(
+        level="exploration",
+        rule="seed -> operation history on a stand-alone cmi_hashheap (initial exponent 1-6; default, waiting-list, pool-holder and object-priority orders taken from freshly initialised library objects; automatic and colliding caller keys) vs map+order model with a structural check after every operation; "
+             "distinct = distinct trace hashes; non-trivial = crossed a capacity doubling, had colliding caller keys live together, or re-inserted a removed key",
+        jobs=[J("hheap", "rel", 400000, 8000000), J("hheap", "san", 40000, 800000)],
+        wall_quick=50, wall_thorough=900,
+        assumptions=["'minimum' is judged with the comparator the library installed (no live element strictly preferred); for the default order additionally with the documented increasing-dsortkey rule",
+                     "the event order is exercised through C01 (its comparator and queue are private statics)"],
+    ),
+    "C20": dict(
+        level="exploration",
+        rule="seed -> alloc/free/verify history on a dynamic pool or on statically initialised thread-local pools (one thread, or two real threads under the baton scheduler with thread exit and cmi_mempool_cleanup) vs address/stamp ledger; "
+             "distinct = distinct trace hashes; non-trivial = >= 8 allocations and at least one pool expansion",
+        jobs=[J("mempool", "rel", 12000, 300000), J("mempool", "san", 3000, 60000)],
+        wall_quick=50, wall_thorough=900,
+        assumptions=["object sizes are multiples of 8 from {8,16,24,40,64,512,2048,4096,8192}; at most 40000 live objects"],
+    ),
 }
